@@ -12,6 +12,7 @@ import (
 	"math"
 	"os"
 	"strconv"
+	"strings"
 	"time"
 )
 
@@ -224,6 +225,9 @@ func vRunNative(h func()) (outcome string) {
 			switch p := r.(type) {
 			case vAssertFailed:
 				outcome = "ASSERT-FAIL " + p.label
+				if len(vTags) > 0 {
+					outcome += " tags=" + strings.Join(vTags, ",")
+				}
 			case vAssumeFailed:
 				outcome = "ASSUME-FAIL " + p.what
 			default:
@@ -331,6 +335,9 @@ func vFSRestore(h int) {
 		os.WriteFile(p, b, 0644)
 	}
 }
+
+func vFSReadAll(path string) []byte { b, _ := os.ReadFile(path); return b }
+func vFSWriteAll(path string, b []byte) { os.WriteFile(path, b, 0644) }
 
 func vFSExists(path string) bool {
 	_, err := os.Stat(path)
